@@ -37,11 +37,12 @@ SPECIES = {
 
 def cases(tier):
     maxslots = 4 if tier == 'quick' else 5
-    return [{'name': 'slots%d' % n, 'n': n} for n in range(1, maxslots + 1)] + [{'name': 'missing-maps'}]
+    return [{'name': 'slots%d' % n, 'n': n} for n in range(1, maxslots + 1)] + [{'name': 'missing-maps'}, {'name': 'partial-maps'}]
 
 
 def run_case(case):
     from symx.core import explore, SymReal, SymInt, expr, Ctx, concretize_inputs
+    from symx.core import PathAbort as core_PathAbort
     from symx import npx
     from symx.mol import make_molecule, make_top
     npx.install()
@@ -117,7 +118,8 @@ def run_case(case):
             for k in range(3):
                 inputs['m%d_%d_%d' % (q, i, k)] = coordv[q][i][k]
     Ctx.default_sample_inputs = inputs
-    missing_mode = case['name'] == 'missing-maps'
+    missing_mode = case['name'] in ('missing-maps', 'partial-maps')
+    partial_mode = case['name'] == 'partial-maps'
 
     def run(ctx):
         del writes[:]
@@ -147,7 +149,15 @@ def run_case(case):
         system = FakeSystem(first, mols, comment, box)
         man = Manager(system)
         given = [sp for bit, sp in ((1, 'A'), (2, 'B')) if ends & bit]
-        man.add_end_molecules(*[end_mol(sp) for sp in given])
+        if partial_mode:
+            # history: ends for a first subset, maps calculated, then a further species receives its end molecule
+            if len(given) < 2:
+                raise core_PathAbort('needs two species with end molecules')
+            man.add_end_molecules(end_mol(given[0]))
+            man.calculate_exchange_maps(scale_factor=SymReal(s))
+            man.add_end_molecules(end_mol(given[1]))
+        else:
+            man.add_end_molecules(*[end_mol(sp) for sp in given])
         if missing_mode:
             # maps deliberately not calculated (or calculated for nobody)
             try:
@@ -167,6 +177,8 @@ def run_case(case):
 
     for ctx, res, exc in explore(run, max_paths=3000):
         st['paths'] += 1
+        if res is None and partial_mode:
+            continue
         if res is None:
             r, secs, m = ctx.reachable(cap)
             records.append({'name': 'path%d aborted (%r): infeasible under the preconditions' % (st['paths'], exc), 'status': 'unsat' if r == 'unsat' else ('unknown' if r == 'unknown' else 'sat'),
@@ -175,14 +187,14 @@ def run_case(case):
         problems = []
         if res[0] in ('no-error', 'SystemError'):
             kind, given, seq, wr = res
-            tag = 'species %s, ends for %s, maps not calculated' % (seq, given)
+            tag = 'species %s, ends for %s, %s' % (seq, given, 'maps calculated before the last end molecule was attached' if partial_mode else 'maps not calculated')
             if kind != 'SystemError':
                 problems.append('extrapolation before the maps exist did not raise')
             if wr:
                 problems.append('the output file was opened although the request was refused')
             rec = {'name': tag + ': SystemError and no file opened', 'status': 'unsat' if not problems else 'sat', 'secs': 0}
             if problems:
-                rec['witness'] = {'kind': 'extrapolate', 'seq': seq, 'given': given, 'what': '; '.join(problems), 'mode': 'missing'}
+                rec['witness'] = {'kind': 'extrapolate', 'seq': seq, 'given': given, 'what': '; '.join(problems), 'mode': 'partial' if partial_mode else 'missing'}
             records.append(rec)
             nontrivial.append(tag)
             continue
@@ -271,6 +283,7 @@ def replay(w):
         for sp in sorted(set(seq)):
             p = os.path.join(d, sp + '_cg.itp'); itp(p, SPECIES[sp]['name'], SPECIES[sp]['ref'], SPECIES[sp]['refbonds']); itps.append(p)
         man = Manager.from_files(sysp, *itps)
+        ends = {}
         for sp in given:
             if sp not in seq:
                 continue
@@ -278,10 +291,18 @@ def replay(w):
             pi, pg = os.path.join(d, sp + '_aa.itp'), os.path.join(d, sp + '_aa.gro')
             itp(pi, v['name'], v['tgt'], v['tgtbonds'])
             open(pg, 'w').write(write_gro_text([[1, rn, an, i + 1, 0.11 * i + 0.05, 0.07 * i * i, 0.13 * (i % 2) + 0.02] for i, (an, rn) in enumerate(v['tgt'])]))
-            man.add_end_molecule(Molecule.from_files(pg, pi))
+            ends[sp] = Molecule.from_files(pg, pi)
+        if w.get('mode') == 'partial' and len(ends) >= 2:
+            first, *rest = list(ends)
+            man.add_end_molecule(ends[first]); man.calculate_exchange_maps(scale_factor=0.5)
+            for sp in rest:
+                man.add_end_molecule(ends[sp])
+        else:
+            for sp in ends:
+                man.add_end_molecule(ends[sp])
         outp = os.path.join(d, 'out.gro')
         bad = []
-        if w.get('mode') == 'missing':
+        if w.get('mode') in ('missing', 'partial'):
             try:
                 man.extrapolate_system(outp); bad.append('no SystemError before the maps exist')
             except SystemError:
